@@ -1,2 +1,7 @@
 import Ufw.Props.C02
-#print axioms Ufw.Props.C02.uninitialised_refuses
+#print axioms Ufw.Props.C02.refused_unchanged
+#print axioms Ufw.Props.C02.decision
+#print axioms Ufw.Props.C02.writeable_spec
+#print axioms Ufw.Props.C02.writeable_ok
+#print axioms Ufw.Props.C02.taint_spec
+#print axioms Ufw.Props.C02.malformed_ok
